@@ -172,8 +172,11 @@ Definition starts_underscore (x : string) : bool :=
   match x with String c _ => Ascii.eqb c "_"%char | EmptyString => false end.
 
 (* columns of model_to_dataframe (status=True, iterations=True, include_internal=False) *)
-Definition base_columns (s : state) : list string :=
-  filter (fun x => negb (starts_underscore x)) (names s) ++ ["status"; "iterations"].
+(* columns of model_to_dataframe(status=st, iterations=it, include_internal=incl) *)
+Definition base_columns_with (st it incl : bool) (s : state) : list string :=
+  (if incl then names s else filter (fun x => negb (starts_underscore x)) (names s)) ++
+  (if st then ["status"] else []) ++ (if it then ["iterations"] else []).
+Definition base_columns (s : state) : list string := base_columns_with true true false s.
 
 (* {v: k for k, v in aliases.items()}.get(c): the LAST alias of c wins *)
 Definition last_alias (a : amap_t) (c : string) : option string :=
@@ -220,12 +223,14 @@ Definition rename_columns (am : aobj) (cols : list string) : outcome (list strin
   end.
 
 (* an exported column: its title and the variable whose series fills it (model[k] resolves aliases) *)
-Definition export (am : aobj) (s : state) : outcome (list (string * string)) :=
-  let cols := base_columns s in
+Definition export_cols (am : aobj) (cols : list string) : outcome (list (string * string)) :=
   match rename_columns am cols with
   | Raise e => Raise e
   | Ret titles => Ret (combine titles (map (resolve am) cols))
   end.
+Definition export (am : aobj) (s : state) : outcome (list (string * string)) := export_cols am (base_columns s).
+Definition export_with (am : aobj) (st it incl : bool) (s : state) : outcome (list (string * string)) :=
+  export_cols am (base_columns_with st it incl s).
 Definition export_plain (s : state) : list (string * string) :=
   let cols := base_columns s in combine cols cols.
 
